@@ -385,11 +385,18 @@ func poolOf[T any](vs ...T) []reflect.Value {
 func typeOf[T any]() reflect.Type { return reflect.TypeOf((*T)(nil)).Elem() }
 
 // exoValues: the 13 value containers with element type E
-func exoValues[E comparable](j *jobCtx, tag string, pool []E) {
+func exoValues[E comparable](j *jobCtx, tag string, pool []E, extra ...E) {
 	cmpE := cmpByText[E]
 	for _, b := range elemBoxes[E](cmpE) {
 		if !j.want(b.kind) || budgetExceeded() {
 			continue
+		}
+		// `extra`: values that are stored but never passed as arguments - interface values whose dynamic type cannot be hashed
+		// or compared with itself (slices, maps: what FromJSON makes of nested arrays and objects).  The two hash sets cannot
+		// hold them (Go's map panics: the caller's error), every other kind can.
+		fill := append([]E{}, pool...)
+		if b.kind != "hashset" && b.kind != "linkedhashset" {
+			fill = append(fill, extra...)
 		}
 		c := &exoCtx{kind: b.kind, elem: tag, pools: map[reflect.Type][]reflect.Value{typeOf[E](): poolOf(pool...)},
 			cmps: map[reflect.Type]reflect.Value{typeOf[E](): reflect.ValueOf(cmpE)}}
@@ -403,14 +410,14 @@ func exoValues[E comparable](j *jobCtx, tag string, pool []E) {
 		var cont any
 		gi := guard("exo", b.kind, "Build", func() {
 			cont = b.mk()
-			for _, e := range pool {
+			for _, e := range fill {
 				b.add(cont, e)
 			}
 		})
 		if gi.Panic || cont == nil {
 			c.emit("Build", "", nil, false, func() {
 				x := b.mk()
-				for _, e := range pool {
+				for _, e := range fill {
 					b.add(x, e)
 				}
 			})
@@ -476,6 +483,7 @@ func jobExo(j *jobCtx) {
 	exoValues(j, "ptr", []*NS{nilNS, a, b, nilNS, a})
 	// interfaces: nil interface, typed nil pointers inside, mixed dynamic types
 	exoValues(j, "any", []any{nil, 1, "x", nilNS, a, nan, nanKey{nan, "n"}, [2]int{1, 2}, struct{}{}, errors.New("e"), nilNE})
+	exoValues[any](j, "anyU", []any{nil, 1, "x", "y", 2.5, true}, any([]any{1, "in"}), any(map[string]any{"k": 1}), any([]int{3}), any(func() {}))
 	exoValues(j, "error", []error{nil, nilNE, &NE{3}, errors.New("plain"), nilNE})
 	exoValues(j, "stringer", []fmt.Stringer{nil, nilNS, a, b})
 	// values that are not equal to themselves, zero-size values, channels, hostile strings
